@@ -5,20 +5,22 @@ mod c06;
 mod c07;
 mod c08;
 mod c10;
+mod c11;
 mod c12;
-mod texts;
-mod evolve;
-mod refresolve;
 mod c13;
 mod c14;
 mod c18;
-mod pcf;
 mod corpus;
 mod ev;
+mod evolve;
+mod pcf;
 mod refbin;
 mod refocf;
+mod refresolve;
 mod su;
+mod texts;
 mod val;
+mod wf;
 
 use ev::Tier;
 
@@ -52,23 +54,25 @@ fn main() {
     rayon::ThreadPoolBuilder::new().num_threads(threads).stack_size(64 << 20).build_global().ok();
     let filter = replay.as_ref().map(c01::Filter::from_replay).unwrap_or_default();
     let depth = replay.as_ref().and_then(|r| r["depth"].as_u64()).map(|d| d as usize);
+    let rp = replay.as_ref();
     let code = match id {
         "C01" => c01::run_c01(tier, filter, depth),
         "C02" => c01::run_c02(tier, filter, depth),
-        "C03" => c03::run_check(tier, replay.as_ref()),
+        "C03" => c03::run_check(tier, rp),
         "C06" => c06::run(tier, filter),
         "C07" => c07::run(tier, filter),
-        "C08" => c08::run_c08(tier, replay.as_ref()),
-        "C09" => c08::run_c09(tier, replay.as_ref()),
-        "C10" => c10::run(tier, replay.as_ref()),
-        "C12" => c12::run(tier, replay.as_ref()),
+        "C08" => c08::run_c08(tier, rp),
+        "C09" => c08::run_c09(tier, rp),
+        "C10" => c10::run(tier, rp),
+        "C11" => c11::run(tier, rp),
+        "C12" => c12::run(tier, rp),
         "C12-DUMP" => {
             print!("{}", c12::dump(2));
             0
         }
-        "C13" => c13::run(tier, replay.as_ref()),
-        "C14" => c14::run(tier, replay.as_ref()),
-        "C18" => c18::run(tier, replay.as_ref()),
+        "C13" => c13::run(tier, rp),
+        "C14" => c14::run(tier, rp),
+        "C18" => c18::run(tier, rp),
         _ => ev::machinery(&format!("unknown property {id}")),
     };
     std::process::exit(code);
